@@ -827,6 +827,35 @@ def shape_glob_nodeless():
     }
 
 
+def shape_tree_recycle_overlap():
+    """A sub-plan owns a static tree; the plan drops the sub-plan and gives another step an output below
+    that directory; then the sub-plan comes back unchanged (a full recycle brings the tree back without
+    any declaration).  A static tree and somebody else's output below it must never be attached
+    together, whatever the history (finding F27)."""
+    sub = ["step", "./sub.py", {"inp": ["sub.py"], "need": "PLAN"}]
+    t = ["step", "T", {"inp": ["s1.txt"], "out": ["data/x.txt"]}]
+    head = [["static", ["sub.py", "s1.txt"]]]
+    return {
+        "name": "tree_recycle_overlap",
+        "cfg": {"clean": False},      # --no-clean: what a plan dropped stays around, detached
+        "schedule_dependent": True,   # v3 / v3b are contradictory plans: which declaration is refused depends on who comes first
+        "sources": {"plan.py": ["v1", "v2", "v3", "v3b"], "sub.py": ["v1"], "s1.txt": ["a", "b"], "data/d1.txt": ["a", "b"]},
+        "scripts": {
+            "./plan.py": {
+                "on": "plan.py",
+                "versions": {"v1": head + [sub], "v2": head + [t], "v3": head + [sub, t], "v3b": head + [t, sub]},
+            },
+            "./sub.py": [["tree", ["data/"]], ["step", "U", {"inp": ["data/d1.txt"], "out": ["u.txt"]}]],
+            "T": GENERIC_WORKER,
+            "U": GENERIC_WORKER,
+        },
+        "extra_histories": [
+            [[], [["set", "plan.py", "v2"]], [["set", "plan.py", "v3"]]],
+            [[], [["set", "plan.py", "v2"]], [["set", "plan.py", "v3b"]]],
+        ],
+    }
+
+
 def shape_resources():
     return {
         "name": "resources",
@@ -880,6 +909,7 @@ SHAPES = {
         shape_amend_cycle,
         shape_optional_consumer_dropped,
         shape_glob_nodeless,
+        shape_tree_recycle_overlap,
         shape_resources,
     )
 }
